@@ -423,7 +423,7 @@ func H_c11_small_t() { c11Small(6) }
 // c11Closure: planarity of graphs derived from an n<=N base graph by steps that
 // preserve planarity status (subdivide an edge, add an isolated or pendant
 // vertex, relabel), and by edge deletions (planar stays planar).
-func c11Closure(N, steps, minM int) {
+func c11Closure(N, steps, minM, minM6 int) {
 	n := 4 + rt.Choice("n", N-3)
 	adj := vgAdj(n, vgBits(n))
 	m := 0
@@ -434,7 +434,11 @@ func c11Closure(N, steps, minM int) {
 			}
 		}
 	}
-	rt.Assume(m >= minM)
+	if n >= 6 {
+		rt.Assume(m >= minM6)
+	} else {
+		rt.Assume(m >= minM)
+	}
 	want := c11PlanarSmall(adj)
 	cur := vgCopyAdj(adj)
 	grow := func(a [][]bool) [][]bool {
@@ -450,7 +454,7 @@ func c11Closure(N, steps, minM int) {
 	}
 	for s := 0; s < steps; s++ {
 		k := len(cur)
-		switch rt.Choice("step", 5) {
+		switch rt.Choice("step", 3) {
 		case 0: // subdivide a symbolic edge
 			i := rt.Concrete(rt.IntIn("i", 0, k-2))
 			j := rt.Concrete(rt.IntIn("j", i+1, k-1))
@@ -464,35 +468,40 @@ func c11Closure(N, steps, minM int) {
 			i := rt.Concrete(rt.IntIn("i", 0, k-1))
 			cur = grow(cur)
 			cur[i][k], cur[k][i] = true, true
-		case 3: // relabel: reverse the labels
-			p := make([]int, k)
-			for v := range p {
-				p[v] = k - 1 - v
-			}
-			cur = vgRelabel(cur, p)
-		case 4: // relabel: rotate
-			p := make([]int, k)
-			for v := range p {
-				p[v] = (v + 1) % k
-			}
-			cur = vgRelabel(cur, p)
 		}
 	}
-	var g Graph
-	if rt.Choice("rep", 2) == 0 {
-		g = vgDense(cur)
-	} else {
-		g = vgSparse(cur)
+	// the derived graph as it is and under three relabellings (reverse, rotate, both), dense
+	// and sparse: eight calls inside the path
+	k := len(cur)
+	rev, rot := make([]int, k), make([]int, k)
+	for v := 0; v < k; v++ {
+		rev[v] = k - 1 - v
+		rot[v] = (v + 1) % k
 	}
-	got, ok := c11Call(g, "derived graph")
-	if ok {
-		rt.Check(got == want, "IsPlanar of a derived graph differs from the planarity of its base graph")
+	variants := [][][]bool{cur, vgRelabel(cur, rev), vgRelabel(cur, rot), vgRelabel(vgRelabel(cur, rot), rev)}
+	for _, a := range variants {
+		for rep := 0; rep < 2; rep++ {
+			var g Graph
+			if rep == 0 {
+				g = vgDense(a)
+			} else {
+				g = vgSparse(a)
+			}
+			got, ok := c11Call(g, "derived graph")
+			if !ok {
+				return
+			}
+			if got != want {
+				rt.Fail("IsPlanar of a derived graph differs from the planarity of its base graph")
+				return
+			}
+		}
 	}
 	rt.Reach("end")
 }
 
-func H_c11_closure_q() { c11Closure(5, 2, 8) }
-func H_c11_closure_t() { c11Closure(6, 2, 11) }
+func H_c11_closure_q() { c11Closure(5, 2, 8, 11) }
+func H_c11_closure_t() { c11Closure(6, 1, 8, 11) }
 
 // c11TwoBlocks: two dense blocks on 5 vertices (every labelled graph with >= minM edges)
 // glued at one symbolic vertex each (9 vertices, two large biconnected components), in
